@@ -378,9 +378,17 @@ pub fn check(ctx: &Ctx) -> Check {
     let parts: Vec<Box<dyn Part>> = vec![
         Box::new(EnumPart {
             name: "shapes",
-            rule: "every shape with 1..5 axes and lengths 1..5 (thorough 1..6), distinct integer fill; all indices, all (axis, position) views, all out-of-range requests; non-trivial = >=2 axes with unequal lengths, or a one-axis array; distinct by shape",
+            rule: "every shape with 1..5 axes and lengths 1..5 (thorough 1..6) plus every shape with 6..7 axes of lengths 1..2, distinct integer fill; all indices, all (axis, position) views, all out-of-range requests; non-trivial = >=2 axes with unequal lengths, or a one-axis array; distinct by shape",
             exhaustive: true,
-            cases: Box::new(move |_| all_shapes(5, 1, max_len).into_iter().map(|shape| ShapeCase { shape }).collect()),
+            cases: Box::new(move |_| {
+                let mut v: Vec<ShapeCase> = all_shapes(5, 1, max_len).into_iter().map(|shape| ShapeCase { shape }).collect();
+                // plus every shape with 6 and 7 axes of lengths 1..2 (and 6 axes of lengths 1..3 in the thorough tier)
+                v.extend(all_shapes(7, 1, 2).into_iter().filter(|s| s.len() >= 6).map(|shape| ShapeCase { shape }));
+                if max_len >= 6 {
+                    v.extend(all_shapes(6, 1, 3).into_iter().filter(|s| s.len() == 6 && s.contains(&3)).map(|shape| ShapeCase { shape }));
+                }
+                v
+            }),
             eval: Box::new(eval_shape),
         }),
         Box::new(RandomPart {
